@@ -3,6 +3,7 @@ package failsafehttp
 import (
 	"context"
 	"crypto/x509"
+	"errors"
 	"net/http"
 	"net/url"
 	"regexp"
@@ -37,10 +38,12 @@ func RetryPolicyBuilder() retrypolicy.RetryPolicyBuilder[*http.Response] {
 					stoppedAfterRedirects.MatchString(v.Error()) {
 					return false
 				}
-				// Do not retry on unknown authority errors
-				if _, ok := v.Err.(x509.UnknownAuthorityError); ok {
-					return false
-				}
+			}
+			// Do not retry on unknown authority errors
+			// These may be wrapped in a tls.CertificateVerificationError, and in a url.Error when using an http.Client
+			var unknownAuthorityErr x509.UnknownAuthorityError
+			if errors.As(err, &unknownAuthorityErr) {
+				return false
 			}
 			// Retry on all other url errors
 			return true
